@@ -99,10 +99,20 @@ def impl_init():
     empties = [Database(), U.load_db("[tcp:request]\nlabel = s:unix:Linux:3.11 and newer\n[tcp:response]\nlabel = s:unix:Linux:3.x\n[mtu]\nlabel = Ethernet or modem\n")]
 
     def impl(c):
+        # in one case of 25 the file is loaded into the PROCESS-WIDE database (pyp0f.database.DATABASE, as scripts do) and the impersonation calls leave
+        # their `database` argument out: the default IS that object
+        use_default = (len(c["lines"]) * 7 + len(c["queries"])) % 25 == 0
         try:
-            db = U.load_db("\n".join(c["lines"]) + "\n")
+            db = U.load_db("\n".join(c["lines"]) + "\n", db=DATABASE if use_default else None)
         except DatabaseError as e:
             return {"dberr": {"err": type(e).__name__, "line": getattr(e, "line_number", None)}}
+        try:
+            return impl2(c, db, {} if use_default else {"database": db})
+        finally:
+            if use_default:
+                DATABASE.load()
+
+    def impl2(c, db, dbkw):
         out = {}
         dump0 = U.dump_db(db)
         for ei, edb in enumerate(empties):
@@ -141,9 +151,9 @@ def impl_init():
                     base = IP() / TCP(flags=fl[zlib.crc32((q + str(len(out))).encode()) % len(fl)], seq=1, options=[("MSS", 1460)])
                     try:
                         if si == 0:
-                            impersonate_mtu(base, raw_label=q, database=db)
+                            impersonate_mtu(base, raw_label=q, **dbkw)
                         else:
-                            impersonate_tcp(base, raw_label=q, database=db, extra_hops=1 + len(q) % 5)
+                            impersonate_tcp(base, raw_label=q, extra_hops=1 + len(q) % 5, **dbkw)
                     except Exception as e:  # impersonation itself is C05's / C08's subject
                         pass
                     ch = state["chosen"]
